@@ -483,6 +483,9 @@ var C11Concurrent func(c *eng.Ctx, next func() (int, bool))
 // then closed and the C11 order rules applied.
 var C11ResolveRace func(c *eng.Ctx, next func() (int, bool))
 
+// C11AgedProcess is installed by package conc (close overlaps after a million goroutines).
+var C11AgedProcess func(c *eng.Ctx, next func() (int, bool))
+
 // C11RootHandle is installed by package conc (the root scope closed through its own handle).
 var C11RootHandle func(c *eng.Ctx, next func() (int, bool))
 
@@ -655,6 +658,9 @@ func runC11(c *eng.Ctx) {
 		}
 		if C11RootHandle != nil {
 			C11RootHandle(c, cr.next)
+		}
+		if C11AgedProcess != nil {
+			C11AgedProcess(c, cr.next)
 		}
 		if C11CreateVsClose != nil {
 			C11CreateVsClose(c, cr.next)
